@@ -46,4 +46,11 @@ CHECKS = {
           "state graph, i.e. every (frame lengths, cut set) within the bound, is replayed into WebSocketTemporaryHandler and the endpoint's deliveries compared after each read; "
           "runs with 126-/127-class frames and random cuts are recorded and validated by Trace_WsStream."),
     note="Payload bytes and masking are exercised with random content by the harness and compared for equality there; fragmented (FIN=0) messages are out of scope (the library does not build them)."),
+ "C19": dict(
+    level="exploration",
+    technique="TLC model checking of the thin Auth model; its operation space written out by TLC, concretised and executed on the real scrypt functions; TLC judges every outcome (Obs_Auth)",
+    text=("Auth.tla (records remember password and a fresh salt; corrupted records never verify) is model-checked; TLC writes out every abstract operation (password-class pairs, "
+          "corruption kinds); the harness concretises each kind to many strings (truncation at every position, field removal, base64 damage, parameter edits, method/version edits) "
+          "and calls the real functions in a process pool; TLC judges each outcome (true / false / ValueError|TypeError|False, never True, never another exception) and that every abstract operation was covered."),
+    note="Cryptographic strength of scrypt/SHA-256 is assumed. Strings that parse to identical fields are not corruptions. Parameter edits capped at 64 MiB of scrypt memory."),
 }
